@@ -409,6 +409,7 @@ inductive Op where
   | fefun (f s t k : Nat)                     -- `efun f s t` with an error injected at the k-th instruction (k = 0: at every k in turn)
   | frest (w : String) (k : Nat)              -- `rest w` with an error injected at the k-th instruction
   | inp (o s t : Nat) | input
+  | inpr (o s t : Nat)                        -- input_to("icb2", ..): the callback installs a new input_to (re-entrancy)
   | sappend (d : Nat) (w : String)            -- v[d] += "w"             (EXTEND_SVALUE_STRING)
   | sjoin (d t : Nat)                         -- v[d] += v[t]            (SVALUE_STRING_JOIN)
   | sadd (d s : Nat) (w : String)             -- v[d] = v[s] + "w"       (EXTEND_SVALUE_STRING on the pushed copy)
@@ -801,6 +802,17 @@ def compile (s : St) (op : Op) : Option (List Mi) :=
               .put (.root rInput)]
       else none
     | none => none
+  | .inpr o a b =>
+    -- the same with the callback icb2 (tag 1 of the sentence): when the input arrives it calls input_to("icb", 0, b, a)
+    match uobjCell s o with
+    | some (_, _) =>
+      if a < nSlots && b < nSlots && isNumRoot s rInput then
+        some [.alloc .arr 2 false "" 0, .dup (.root a), .put (.item fresh 0), .dup (.root b), .put (.item fresh 1),
+              .alloc .fn 2 false "" 0, .dup (.root (rHandle o)), .put (.item (fresh + 1) 1),
+              .alloc .sent 2 false "" 1, .swap, .put (.item (fresh + 2) 1), .swap, .put (.item (fresh + 2) 0),
+              .put (.root rInput)]
+      else none
+    | none => none
   | .input =>
     -- call_function_interactive: local references on the function pointer and the carry-over array, free_sentence,
     -- arguments pushed, array released, callback (or its "owner is destructed" error), arguments popped,
@@ -808,12 +820,27 @@ def compile (s : St) (op : Op) : Option (List Mi) :=
     match slotCell s rInput with
     | some (sc, scell) =>
       match scell.items with
-      | [.ptr vs, .ptr _] =>
-        some [.dup (.item sc 1), .dup (.item sc 0), .take (.root rInput), .free,
+      | [.ptr vs, .ptr fnc] =>
+        -- the callback icb2 (sentence tag 1) of a live owner installs a new input_to with its two arguments swapped:
+        -- the old sentence has been freed before the call, so set_call() accepts the new one
+        let ownerAlive := match s.heap[fnc]? with
+          | some fcell => (match (fcell.items[1]? : Option Val) with
+            | some (Val.ptr ow) => (match s.heap[ow]? with
+              | some oc => oc.live && !oc.destructed
+              | none => false)
+            | _ => false)
+          | none => false
+        let rearm := if scell.tag == 1 && ownerAlive then
+            [Mi.alloc .arr 2 false "" 0, .dup (.root (top + 1)), .put (.item fresh 0), .dup (.root top), .put (.item fresh 1),
+             .alloc .fn 2 false "" 0, .dup (.item fnc 1), .put (.item (fresh + 1) 1),
+             .alloc .sent 2 false "" 0, .swap, .put (.item (fresh + 2) 1), .swap, .put (.item (fresh + 2) 0),
+             .put (.root rInput)]
+          else []
+        some ([.dup (.item sc 1), .dup (.item sc 0), .take (.root rInput), .free,
               .pushRoot, .dup (.item vs 0), .put (.root top), .pushRoot, .dup (.item vs 1), .put (.root (top + 1)),
-              .free,
-              .take (.root (top + 1)), .free, .popRoot, .take (.root top), .free, .popRoot,
-              .free]
+              .free] ++ rearm ++
+              [.take (.root (top + 1)), .free, .popRoot, .take (.root top), .free, .popRoot,
+              .free])
       | _ => none
     | none => none
   | .sappend d w =>
